@@ -68,18 +68,27 @@ def run_scope(pid, tier):
                         "name": case["input"]["gen"]["name"], "binds_to": bound})
     if pid == "C19":
         for key, variants in groups.items():
-            base = next(((c, o) for c, o in variants.values() if len(c["input"]["mods"]) == 4 and
-                         not any(d["name"] in ("Zed", "Other") for m in c["input"]["mods"] for d in m["defs"])), None)
+            def is_base(c):
+                mods = {tuple(m["path"]): [d["name"] for d in m["defs"]] for m in c["input"]["mods"]}
+                return len(mods) == 4 and "Zed" not in mods[("b",)] and not ({"Other", "Own", "W"} & set(mods[("a",)]))
+            base = next(((c, o) for c, o in variants.values() if is_base(c)), None)
             if base is None or not base[1]["accepted"]:
                 continue
-            bfile = next((f for f in base[1].get("files", []) if f["rel"] == "m.rs"), None)
             for c, o in variants.values():
                 if c is base[0] or not o["accepted"]:
                     continue
-                n_checked += 1
-                f = next((x for x in o.get("files", []) if x["rel"] == "m.rs"), None)
-                if bfile is None or f is None or f["hash"] != bfile["hash"]:
-                    res.violation("m.rs changes when definitions that m neither imports nor mentions are added / changed",
+                bmods = {tuple(m["path"]): [d["name"] for d in m["defs"]] for m in c["input"]["mods"]}
+                watch = ["m.rs"] + (["a/n.rs"] if "Zed" not in bmods.get(("b",), []) else [])
+                for rel in watch:
+                    n_checked += 1
+                    bfile = next((f for f in base[1].get("files", []) if f["rel"] == rel), None)
+                    f = next((x for x in o.get("files", []) if x["rel"] == rel), None)
+                    if bfile is None or f is None or f["hash"] != bfile["hash"]:
+                        break
+                else:
+                    continue
+                if True:
+                    res.violation(f"{rel} changes when definitions that the module neither imports nor mentions are added / changed",
                                   payload(c, o, {"base_case": base[0]["id"], "base_modules": [m["path"] for m in base[0]["input"]["mods"]],
                                                  "perturbed_modules": [(m["path"], [d["name"] for d in m["defs"]]) for m in c["input"]["mods"]],
                                                  "hash_base": bfile and bfile["hash"], "hash_perturbed": f and f["hash"]}))
